@@ -36,12 +36,16 @@ type Validator struct {
 
 // validationContext holds current validation context.
 type validationContext struct {
-	function       *Function
-	functionName   string
-	loopDepth      int
-	switchDepth    int // nesting of switch statements since the innermost enclosing loop/continuing (break may target a switch)
-	inContinuing   bool
-	expressionUsed map[ExpressionHandle]bool
+	function     *Function
+	functionName string
+	loopDepth    int
+	switchDepth  int // nesting of switch statements since the innermost enclosing loop/continuing (break may target a switch)
+	inContinuing bool
+	// continuingLoopDepth is loopDepth at the innermost enclosing continuing
+	// block: break / continue are only forbidden when they target that loop,
+	// not a loop nested inside the continuing block.
+	continuingLoopDepth int
+	expressionUsed      map[ExpressionHandle]bool
 }
 
 // Validate checks the IR module for correctness.
@@ -559,9 +563,12 @@ func (v *Validator) validateStatement(index int, stmt *Statement) {
 		v.validateBlock(kind.Body)
 
 		oldContinuing := v.context.inContinuing
+		oldContinuingDepth := v.context.continuingLoopDepth
 		v.context.inContinuing = true
+		v.context.continuingLoopDepth = v.context.loopDepth
 		v.validateBlock(kind.Continuing)
 		v.context.inContinuing = oldContinuing
+		v.context.continuingLoopDepth = oldContinuingDepth
 
 		if kind.BreakIf != nil {
 			if !v.isValidExpressionHandle(*kind.BreakIf) {
@@ -577,7 +584,7 @@ func (v *Validator) validateStatement(index int, stmt *Statement) {
 			if v.context.loopDepth == 0 {
 				v.addErrorInStatement(index, "break outside of loop")
 			}
-			if v.context.inContinuing {
+			if v.context.inContinuing && v.context.loopDepth == v.context.continuingLoopDepth {
 				v.addErrorInStatement(index, "break in continuing block")
 			}
 		}
@@ -586,7 +593,7 @@ func (v *Validator) validateStatement(index int, stmt *Statement) {
 		if v.context.loopDepth == 0 {
 			v.addErrorInStatement(index, "continue outside of loop")
 		}
-		if v.context.inContinuing {
+		if v.context.inContinuing && v.context.loopDepth == v.context.continuingLoopDepth {
 			v.addErrorInStatement(index, "continue in continuing block")
 		}
 
